@@ -51,7 +51,7 @@ type popSpec struct {
 	Live     []step        // further actions through A's live cache after everything was collected
 }
 
-func popSpecs(tier string) []popSpec {
+func popSpecs() []popSpec {
 	filters := popSpec{Name: "filters", Replicas: []replicaSpec{{"A", []step{
 		{Op: "new", Bug: "b1", By: "I0", Unix: 1000, Title: "Critical crash in parser", Msg: "zebra sighting", Meta: map[string]string{"github-id": "42"}},
 		{Op: "labels", Bug: "b1", By: "I0", Unix: 1001, Add: []string{"prod"}},
@@ -103,7 +103,7 @@ func popSpecs(tier string) []popSpec {
 		{Op: "close", Bug: "bC1", By: "I0", Unix: 40},
 	}}
 	specs := []popSpec{filters, ties}
-	if tier == "thorough" {
+	{
 		// the same tie structure with the stamps mirrored (what was smaller is larger) and three workers
 		mirror := popSpec{Name: "ties-mirrored", Replicas: []replicaSpec{
 			{"A", nil},
